@@ -261,6 +261,63 @@ func (w *worker) runCase(line int, raw []byte) {
 			atomic.AddInt64(&w.st.Cases, 1)
 			continue
 		}
+		if kind == "vm" {
+			// XQueryVM: the engine's delivery sequence and cursor movements vs the implementation-shaped model
+			if err != nil || ex == nil || co.Panic != "" {
+				w.report(Mismatch{Line: line, Kind: kind, Expr: text, Render: renderName(o), Fail: "compile", Got: co, Case: raw})
+				continue
+			}
+			for ci, ctx := range ctxs {
+				var want struct {
+					Nodes []int           `json:"nodes"`
+					Ops   []int `json:"ops"` // flattened (code, from, to)
+				}
+				if err := json.Unmarshal(c.R[ci], &want); err != nil {
+					fmt.Fprintf(os.Stderr, "xvh: line %d: bad vm expectation: %v\n", line, err)
+					os.Exit(2)
+				}
+				var log []vdoc.Move
+				var got Outcome
+				func() {
+					defer guard(&got)
+					it := ex.Select(c.D.AtRec(ctx, &log))
+					got.IDs, got.Runaway = drain(it, runawayLimit)
+				}()
+				evals++
+				if len(want.Nodes) > 0 {
+					nontriv++
+					if len(localNT) == 0 {
+						localNT = append(localNT, text)
+					}
+				}
+				fail := ""
+				switch {
+				case got.Panic != "":
+					fail = "panic:" + got.Panic
+				case !reflect.DeepEqual(append([]int{}, want.Nodes...), append([]int{}, got.IDs...)):
+					fail = "vm-nodes"
+				default:
+					if len(want.Ops) == 1 {
+						// movement list too long to be emitted: nodes only
+					} else if len(want.Ops) != 3*len(log) {
+						fail = "vm-ops"
+					} else {
+						for k, m := range log {
+							if vmOpCode[m.Op] != want.Ops[3*k] || m.From != want.Ops[3*k+1] || m.To != want.Ops[3*k+2] {
+								fail = "vm-ops"
+								break
+							}
+						}
+					}
+				}
+				if fail != "" {
+					got.Msg = fmt.Sprint(log)
+					w.report(Mismatch{Line: line, Kind: kind, Expr: text, Render: renderName(o), Ctx: ctx, Fail: fail, Want: c.R[ci], Got: got, Via: "Select", Case: raw})
+				}
+			}
+			atomic.AddInt64(&w.st.Cases, 1)
+			continue
+		}
 		if kind == "noerr" {
 			// C15: whatever Compile accepted must not fail with a Go runtime error
 			evals++
@@ -403,6 +460,8 @@ func (w *worker) runCase(line int, raw []byte) {
 		w.mu.Unlock()
 	}
 }
+
+var vmOpCode = map[string]int{"child": 1, "next": 2, "prev": 3, "parent": 4, "root": 5, "first": 6, "nextattr": 7}
 
 // decodeLine undoes TLC's CSVWrite quoting: a line is either raw JSON or a
 // TLA+ string literal containing JSON.
